@@ -35,7 +35,8 @@ void run_c14(sim::RunCtx& ctx) {
     ref::Parsed P = vf.from_carquet ? vf.parsed : ref::parse_file(vf.bytes.data(), vf.bytes.size());
     if (!P.ok) sim::harness_bug("C14: valid file does not parse: " + P.error);
     std::vector<PageSpan> pages; uint64_t page_bytes = 0;
-    for (auto& ci : P.chunks) for (auto& pg : ci.pages) { if (!pg.has_crc || pg.comp_len == 0) continue; pages.push_back({ci.rg, ci.col, pg.body_off, pg.comp_len, pg.first_entry, pg.type == 2}); page_bytes += pg.comp_len; if (pg.type == 2) SIM_COUNT("probe.dictionary_page_with_crc"); }
+    for (auto& ci : P.chunks) for (auto& pg : ci.pages) { if (!pg.has_crc || pg.comp_len == 0) continue; if (pg.type == 0 && pg.n_entries == 0) continue;      // a page without rows (peer files only): a reader that has delivered every row never needs to look at it
+        pages.push_back({ci.rg, ci.col, pg.body_off, pg.comp_len, pg.first_entry, pg.type == 2}); page_bytes += pg.comp_len; if (pg.type == 2) SIM_COUNT("probe.dictionary_page_with_crc"); }
     // ---- the undamaged image verifies in every transport (CRC written by carquet or by zlib on the peer side)
     for (int mode = 0; mode < 3; mode++) {
         auto o = exec::open_image(path, mode, true);
